@@ -292,20 +292,21 @@ def strToCode (s : List Nat) : Option Int :=
 def strFromCode (x : Int) : Option (List Nat) :=
   if 0 ≤ x ∧ x ≤ u32AsI32 MAX_CHAR then fromU32 (i32AsU32 x) else some []
 
-/-- the `for &d in &s.s` loop of `str_to_int` with accumulator `x`;
+/-- one iteration of the `for &d in &s.s` loop of `str_to_int`:
+    `let digit = d as i32 - '0' as i32;`
+    `match x.checked_mul(10).and_then(|y| y.checked_add(digit)) { Some(y) => x = y, None => panic!(..) }`
     `none` = `panic!("Arithmetic overflow in str_to_int")` (or, for the subtraction in the
-    `checked` profile, the overflow check) -/
+    `checked` profile, the overflow check).
+    (Written with `Option.bind` rather than `match`: Lean's equation generator loops on a `match`
+    whose discriminant contains the 2^32 literals of the casts.) -/
+def toIntStep (pr : Profile) (x : Int) (d : Nat) : Option Int :=
+  (arithI32 pr (u32AsI32 d - 48)).bind fun digit =>
+    (checkedI32 (x * 10)).bind fun y => checkedI32 (y + digit)
+
+/-- the `for &d in &s.s` loop of `str_to_int` with accumulator `x` -/
 def toIntLoop (pr : Profile) : List Nat → Int → Option Int
   | [], x => some x
-  | d :: rest, x =>
-    -- `let digit = d as i32 - '0' as i32;`
-    match arithI32 pr (u32AsI32 d - 48) with
-    | none => none
-    | some digit =>
-      -- `x.checked_mul(10).and_then(|y| y.checked_add(digit))`
-      match (checkedI32 (x * 10)).bind (fun y => checkedI32 (y + digit)) with
-      | some y => toIntLoop pr rest y
-      | none => none
+  | d :: rest, x => (toIntStep pr x d).bind (fun y => toIntLoop pr rest y)
 
 /-- `str_to_int` (current tree) -/
 def strToInt (pr : Profile) (s : List Nat) : Option Int :=
